@@ -2,7 +2,9 @@
  *
  *   harness <script>
  * script:  `W <nints> <disp_unit>` (collective: frees the current window and creates a new one of nints ints, initialised
- * to 1000*(rank+1)+i: starts a new case); then one command per line `<rank|*> <cmd> <args...>`; every rank executes, in
+ * to 1000*(rank+1)+i: starts a new case; <nints> is one number, or `n_0,n_1,...` = the size of the window rank 0, 1, ...
+ * exposes; <disp_unit> is one number, or `du_0,du_1,...` = the disp_unit that rank 0, 1, ...
+ * passes to MPI_Win_create: MPI lets every rank choose its own; a shorter list is cycled); then one command per line `<rank|*> <cmd> <args...>`; every rank executes, in
  * file order, the lines addressed to it (or to `*`).  Call ids are chosen by the generator (unique per run).
  *   lock t | slock t | unlock t | lockall | unlockall | flush t | flushall | fence <assert> | barrier | wait <usec>
  *   put  id t disp n v1..vn        MPI_Put of n ints
@@ -88,9 +90,28 @@ int main(int argc, char** argv)
         fprintf(stderr, "bad W line\n");
         exit(3);
       }
-      wn   = atoi(tok[1]);
-      du   = atoi(tok[2]);
-      base = malloc(sizeof(int) * (wn > 0 ? wn : 1));
+      { /* the window size of THIS rank: entry (rank mod list length) of the comma-separated list */
+        int wl[64], nw = 0;
+        for (char* q = tok[1]; q && *q && nw < 64;) {
+          wl[nw++] = atoi(q);
+          q = strchr(q, ',');
+          if (q)
+            q++;
+        }
+        wn = nw > 0 ? wl[rank % nw] : 0;
+      }
+      { /* the disp_unit of THIS rank: entry (rank mod list length) of the comma-separated list */
+        int dul[64], ndu = 0;
+        for (char* q = tok[2]; q && *q && ndu < 64;) {
+          dul[ndu++] = atoi(q);
+          q = strchr(q, ',');
+          if (q)
+            q++;
+        }
+        du = ndu > 0 ? dul[rank % ndu] : 4;
+      }
+      base = malloc(sizeof(int) * (wn + 16)); /* slack: a library that wrongly accepts a call one element too long must
+                                                 not take the interpreter down before the dump shows it */
       for (int i = 0; i < wn; i++)
         base[i] = 1000 * (rank + 1) + i;
       MPI_Win_create(base, (MPI_Aint)wn * sizeof(int), du, MPI_INFO_NULL, MPI_COMM_WORLD, &win);
